@@ -107,14 +107,12 @@ def historyOk (H : List Doc) : Prop :=
 
 theorem extend_fold (ds : List Doc) (t : Elem) (occs : List Node) (hocc : occs ≠ []) (hm : Matches t occs)
     (hds : ∀ d ∈ ds, d.ok = true ∧ d.root.name = t.name) :
-    ∃ R, (ds.map Doc.events).foldl (fun (acc : Except PErr Elem) evs => match acc with
-        | Except.ok t => extendStruct t evs
-        | Except.error e => Except.error e) (Except.ok t) = Except.ok R ∧ Matches R (occs ++ ds.map (·.root)) ∧ R.name = t.name := by
+    ∃ R, (ds.map Doc.events).foldl extendStep (Except.ok t) = Except.ok R ∧ Matches R (occs ++ ds.map (·.root)) ∧ R.name = t.name := by
   induction ds generalizing t occs with
   | nil => exact ⟨t, rfl, by simpa using hm, rfl⟩
   | cons d ds ih =>
     obtain ⟨R, hR, hmR, hn⟩ := extendStruct_doc t occs hocc hm d (hds d (by simp)).1 (hds d (by simp)).2
-    simp only [List.map_cons, List.foldl_cons, hR]
+    simp only [List.map_cons, List.foldl_cons, extendStep, hR]
     obtain ⟨R', hR', hmR', hn'⟩ := ih R (occs ++ [d.root]) (by simp) hmR
       (fun d' hd' => ⟨(hds d' (by simp [hd'])).1, by rw [hn]; exact (hds d' (by simp [hd'])).2⟩)
     exact ⟨R', hR', by simpa [List.append_assoc] using hmR', hn'.trans hn⟩
